@@ -45,11 +45,23 @@ use crate::sql::state::{
 
 pub struct ExecutorBuilder<'a> {
     ctx: &'a ExecutionContext<'a>,
+    source_is_projected: bool,
 }
 
 impl<'a> ExecutorBuilder<'a> {
     pub fn new(ctx: &'a ExecutionContext<'a>) -> Self {
-        Self { ctx }
+        Self {
+            ctx,
+            source_is_projected: false,
+        }
+    }
+
+    /// The row source already yields only the projected columns, in select-list
+    /// order: a projection directly above the scan must not map them again by
+    /// their position in the table.
+    pub fn with_projected_source(mut self, projected: bool) -> Self {
+        self.source_is_projected = projected;
+        self
     }
 
     pub fn build_with_source<S: RowSource>(
@@ -224,8 +236,14 @@ impl<'a> ExecutorBuilder<'a> {
                                     }
                                     default_idx
                                 } else if let Expr::Column(col_ref) = expr {
-                                    resolve_column_index(col_ref, &input_column_map)
-                                        .unwrap_or(default_idx)
+                                    if self.source_is_projected
+                                        && matches!(project.input, PhysicalOperator::TableScan(_))
+                                    {
+                                        default_idx
+                                    } else {
+                                        resolve_column_index(col_ref, &input_column_map)
+                                            .unwrap_or(default_idx)
+                                    }
                                 } else if let Expr::Function(FunctionCall {
                                     over: Some(_), ..
                                 }) = expr
